@@ -641,6 +641,14 @@ fn gen_case(batch: &str, _index: u64, seed: u64) -> Case {
     let mut x: Vec<Vec<f64>> = (0..n)
         .map(|_| (0..p).map(|_| if lattice { r.below(5) as f64 } else { r.range(-3.0, 3.0) }).collect())
         .collect();
+    // sometimes one feature is constant (no split possible on it)
+    if p > 1 && r.chance(0.1) {
+        let col = r.below(p as u64) as usize;
+        let v = *r.pick(&[0.0, 1.0, -3.5]);
+        for row in x.iter_mut() {
+            row[col] = v;
+        }
+    }
     // sometimes one feature takes values that are neighbours in f64 (1, 1+ulp, 1+2ulp, ...): thresholds
     // between them cannot be represented (the midpoint rounds onto one of the two values)
     if r.chance(0.12) {
